@@ -41,6 +41,8 @@ pub struct OpRec {
 	pub sent_at: u64,
 	/// the job was already gone (by `is_dead`) when the operation was sent
 	pub sent_to_dead: bool,
+	/// task polls counted by the driver when the operation was sent
+	pub polls: u64,
 }
 
 #[derive(Default)]
@@ -366,7 +368,7 @@ async fn body(sc: &Sc, mons: &mon::Set) -> Obs {
 				let dead = j.is_dead();
 				simchild::note("op", idx as i64, s as i64, format!("{op:?}"));
 				let log_pos = simchild::with(|w| w.log.len() - 1);
-				hs(|h| h.ops.push(OpRec { idx, op, sender: s, log_pos, sent_at: now, sent_to_dead: dead }));
+				hs(|h| h.ops.push(OpRec { idx, op, sender: s, log_pos, sent_at: now, sent_to_dead: dead, polls: dex::rt::polls() }));
 				let t = send_op(j, sc, idx, op, s, &hook_count);
 				if sc.probes && op.prio() != Prio::Normal {
 					hs(|h| h.probe_tickets.push((idx, op.prio(), t.clone())));
